@@ -722,7 +722,8 @@ func (r *PipelineRunner) SaveToStore() {
 		WithField("component", "runner").
 		Debugf("Saving job state to data store")
 
-	r.mx.RLock()
+	// A write lock is needed, since jobs are removed from the runner state if their retention is exceeded
+	r.mx.Lock()
 	data := &store.PersistedData{
 		Jobs: make([]store.PersistedJob, 0, len(r.jobsByID)),
 	}
@@ -794,7 +795,7 @@ func (r *PipelineRunner) SaveToStore() {
 			User:      job.User,
 		})
 	}
-	r.mx.RUnlock()
+	r.mx.Unlock()
 
 	// We do not need to lock here, the single save loops guarantees non-concurrent saves
 
